@@ -35,4 +35,14 @@ CASES = [
      "edits": [("compilers/xunitary.py", "        U2 = copy.deepcopy(U1)\n", "        U2 = copy.copy(U1)\n")]},
     {"id": "xcov-idler-commands-list-copied", "expect": "fire", "key": "C12.shallow-copy",
      "edits": [("compilers/xcov.py", "        U2 = copy.deepcopy(U1)\n", "        U2 = list(U1)\n")]},
+    {"id": "xunitary-extracts-conjugate-unitary", "expect": "fire", "key": "C12.block-sign",
+     "edits": [("compilers/xunitary.py", "U = S[:n_modes, :n_modes] - 1j * S[:n_modes, n_modes:]", "U = S[:n_modes, :n_modes] + 1j * S[:n_modes, n_modes:]")]},
+    {"id": "twin-xunitary-unitary-from-lower-left-block", "expect": "silent",
+     "edits": [("compilers/xunitary.py", "U = S[:n_modes, :n_modes] - 1j * S[:n_modes, n_modes:]", "Y = S[n_modes:, :n_modes]\n        U = S[:n_modes, :n_modes] + 1j * Y")]},
+    {"id": "borealis-offset-wrapped-by-half-period", "expect": "fire", "key": "C12.pitfalls",
+     "edits": [("compilers/tdm.py", "                    cmd.op.p[0] = device.certificate[\"loop_phases\"][loop]\n",
+                "                    offset = device.certificate[\"loop_phases\"][loop]\n                    if offset > np.pi:\n                        offset -= np.pi\n                    cmd.op.p[0] = offset\n")]},
+    {"id": "twin-borealis-offset-wrapped-by-full-period", "expect": "silent",
+     "edits": [("compilers/tdm.py", "                    cmd.op.p[0] = device.certificate[\"loop_phases\"][loop]\n",
+                "                    offset = device.certificate[\"loop_phases\"][loop]\n                    if offset > np.pi:\n                        offset -= 2 * np.pi\n                    cmd.op.p[0] = offset\n")]},
 ]
